@@ -253,7 +253,7 @@ class PlanJoinTablesQuery:
         # use limit for first table?
         # if only models
         use_limit = False
-        if query_in.having is None or query_in.group_by is None and query_in.limit is not None:
+        if query_in.having is None and query_in.group_by is None and query_in.limit is not None:
 
             join = None
             use_limit = True
